@@ -250,22 +250,61 @@ func multiExec(v *variant) bool {
 }
 
 func seqGuard(info *types.Info, is *ast.IfStmt) bool {
-	// if limit != -1 && execution.SequenceID > limit { return }
+	// if limit != -1 && execution.SequenceID > limit { return } — the comparison is a POSITIVE conjunct of
+	// the condition (not under a negation, not a disjunct)
 	found := false
-	ast.Inspect(is.Cond, func(n ast.Node) bool {
-		if b, ok := n.(*ast.BinaryExpr); ok && b.Op == token.GTR {
+	var limit ast.Expr
+	cs := conjuncts(is.Cond)
+	for _, c := range cs {
+		b, ok := c.(*ast.BinaryExpr)
+		if !ok {
+			continue
+		}
+		if b.Op == token.GTR {
 			if sel, ok := ast.Unparen(b.X).(*ast.SelectorExpr); ok && sel.Sel.Name == "SequenceID" {
-				found = true
+				found, limit = true, b.Y
 			}
 		}
-		if b, ok := n.(*ast.BinaryExpr); ok && b.Op == token.LSS {
+		if b.Op == token.LSS {
 			if sel, ok := ast.Unparen(b.Y).(*ast.SelectorExpr); ok && sel.Sel.Name == "SequenceID" {
-				found = true
+				found, limit = true, b.X
 			}
 		}
-		return true
-	})
-	return found && terminates(is.Body.List)
+	}
+	if !found {
+		return false
+	}
+	// the only other conjunct allowed is "a limit is set": limit != -1
+	for _, c := range cs {
+		b, ok := c.(*ast.BinaryExpr)
+		if !ok {
+			return false
+		}
+		if b.Op == token.GTR || b.Op == token.LSS {
+			continue
+		}
+		if b.Op != token.NEQ {
+			return false
+		}
+		x, y := ast.Unparen(b.X), ast.Unparen(b.Y)
+		if v, ok := constInt64(info.Types[y]); ok && v == -1 && types.ExprString(x) == types.ExprString(ast.Unparen(limit)) {
+			continue
+		}
+		if v, ok := constInt64(info.Types[x]); ok && v == -1 && types.ExprString(y) == types.ExprString(ast.Unparen(limit)) {
+			continue
+		}
+		return false
+	}
+	return terminates(is.Body.List)
+}
+
+// conjuncts splits a condition on && (through parentheses); anything else is one conjunct.
+func conjuncts(e ast.Expr) []ast.Expr {
+	e = ast.Unparen(e)
+	if b, ok := e.(*ast.BinaryExpr); ok && b.Op == token.LAND {
+		return append(conjuncts(b.X), conjuncts(b.Y)...)
+	}
+	return []ast.Expr{e}
 }
 
 func ruleWriteUnitFilter(r *Run, rule string) {
